@@ -52,7 +52,11 @@ def build(spec, dtype):
         mods = []
         for c in spec["c"]:
             # {"k": "ref", "to": i}: the same module instance as child i (weight tying)
-            mods.append(mods[c["to"]] if c["k"] == "ref" else build(c, dtype))
+            m = mods[c["to"]] if c["k"] == "ref" else build(c, dtype)
+            if c.get("tie_to") is not None:
+                # a different module sharing the *Parameter* of child tie_to (tied weights, e.g. embedding and head)
+                m.weight = mods[c["tie_to"]].weight
+            mods.append(m)
         return nn.Sequential(*mods)
     if k == "chain":
         return Chain([build(c, dtype) for c in spec["c"]])
